@@ -11,6 +11,7 @@
 #include "internal/ciftypes.h"
 #include "internal/utils.h"
 extern int vf_armed, vf_count, vf_fail_at, vf_failed;
+void __CPROVER_file_local_value_c_cif_buf_free(write_buffer_tp *buf);      /* static in value.c (exported by goto-cc; un-mangled in native replays) */
 #define CONCRETE_TEXT
 #include "value_shapes.h"
 #ifndef MAXALLOC
@@ -115,6 +116,18 @@ void harness(void) {
       if (rc != CIF_OK) { rc = cif_value_clone(v, &w); V_ASSERT(rc == CIF_OK, "retry succeeds (the failed call left the target a valid value)"); }
       V_ASSERT(w->kind == CIF_NUMB_KIND && w->as_numb.digits != v->as_numb.digits && w->as_numb.digits[0] == '1' && w->as_numb.su_digits != NULL && w->as_numb.su_digits[0] == '2' && w->as_numb.scale == 1, "clone equals the number");
       cif_value_free(v); cif_value_free(w); }
+#elif TARGET == 16         /* cif_value_serialize of shape SHAPE; the initial buffer capacity is shrunk by hook so that growth (realloc) is needed at different writes */
+    { buffer_tp *b = NULL, *ref = NULL; size_t i; v = build(SHAPE);
+      arm(); rc = cif_value_serialize(v, &b); disarm();
+      /* cif_buf_write retries a failed growth with the exact size needed, so a single failure may be absorbed: then the call must succeed with the complete image */
+      if (vf_failed && rc != CIF_OK) { V_ASSERT(ERRCODE(rc), "a failed allocation yields CIF_MEMORY_ERROR or CIF_ERROR"); V_COVER_OPT("failure injected"); }
+      else { V_ASSERT(rc == CIF_OK, "the call succeeds when no allocation fails"); V_ASSERT(vf_count <= NSITES, "the enumerated range of failing ordinals covers every allocation site"); }
+      if (rc != CIF_OK) { V_ASSERT(b == NULL, "no buffer is handed out by a failed call"); rc = cif_value_serialize(v, &b); V_ASSERT(rc == CIF_OK, "retry succeeds"); }
+      rc = cif_value_serialize(v, &ref); V_ASSUME(rc == CIF_OK);
+      V_ASSERT(b != NULL && b->for_writing.limit == ref->for_writing.limit, "a successful call hands out the complete serialized form (length)");
+      for (i = 0; i < 96; i++) if (i < ref->for_writing.limit && i < b->for_writing.limit) V_ASSERT(b->for_writing.start[i] == ref->for_writing.start[i], "a successful call hands out the complete serialized form (bytes)");
+      V_ASSERT(ref->for_writing.limit <= 96, "harness compares the whole image");
+      __CPROVER_file_local_value_c_cif_buf_free(&b->for_writing); __CPROVER_file_local_value_c_cif_buf_free(&ref->for_writing); cif_value_free(v); }
 #elif TARGET == 14         /* cif_u_strdup */
     { UChar *c; arm(); c = cif_u_strdup(N1); disarm(); if (vf_failed) { V_ASSERT(c == NULL, "NULL on allocation failure"); V_COVER_OPT("failure injected"); } else V_ASSERT(c != NULL && c != N1 && c[1] == 'a', "copy"); free(c); }
 #endif
